@@ -118,7 +118,9 @@ def _child(kind, text, match, coll, negate):
     if k == "text":
         return _tm_el(text, match, coll, negate, False), ("text", _tm_spec(text, match, coll, negate, False))
     el = ET.Element("{%s}param-filter" % NS)
-    el.set("name", "TYPE")
+    # parameter names are case-insensitive (RFC 6350 3.3): the filter spells it in upper or lower case (by the parity
+    # of the match-type index, which is free here), the card always has TYPE
+    el.set("name", "TYPE" if match % 2 == 0 else "type")
     spec = {"name": "TYPE", "is_not_defined": False, "text": None}
     if k == "param-undefined":
         ET.SubElement(el, "{%s}is-not-defined" % NS)
